@@ -306,7 +306,7 @@ func ruleC09ThunkArms(c *Ctx) {
 			if src == "p:"+selP+"[c:0]" {
 				kind = kt.Args[0].Name
 			}
-			if strings.Contains(src, "p:"+dataP) && strings.HasPrefix(kt.Args[0].Name, "func()") {
+			if ta, isTA := kt.Args[0].V.(*ssa.TypeAssert); isTA && strings.Contains(src, "p:"+dataP) && isThunkType(ta.AssertedType) {
 				isThunk = true
 			}
 		}
@@ -333,7 +333,11 @@ func ruleC09ThunkArms(c *Ctx) {
 			continue
 		}
 		r := ext0(p.Ret[0].T)
-		good := r != nil && r.Op == "call" && r.Name == "Reader" && len(r.Args) == 2 && r.Args[1].Op == "param" && r.Args[1].Name == selP && strings.Contains(r.Args[0].String(), "dyn(")
+		// the data of the re-dispatch is the thunk's result itself (not wrapped, converted or re-shaped)
+		isResult := func(x *Term) bool {
+			return x != nil && x.Op == "ext" && x.Name == "0" && len(x.Args) == 1 && x.Args[0].Op == "call" && x.Args[0].Name == "dyn"
+		}
+		good := r != nil && r.Op == "call" && r.Name == "Reader" && len(r.Args) == 2 && r.Args[1].Op == "param" && r.Args[1].Name == selP && isResult(r.Args[0])
 		if good {
 			if thunk[kind] == "" {
 				thunk[kind] = "ok"
@@ -356,6 +360,62 @@ func ruleC09ThunkArms(c *Ctx) {
 	}
 }
 
+
+func init() {
+	register("C07", ruleThunkTypeAgree)
+	register("C08", ruleThunkTypeAgree)
+	register("C12", ruleThunkTypeAgree)
+}
+
+// ruleThunkTypeAgree: the places that recognise a lazy CTE agree with the place that registers one on its dynamic type.
+func ruleThunkTypeAgree(c *Ctx) {
+	c.Doc("thunk.type-agree", "a lazy CTE is recognised by its dynamic type: every type assertion / type-switch arm in the module on a thunk-shaped function type (func() (any, error)) names exactly the type under which BuildCte (and the memoising thunk) store the entry — with an alias both spellings are one type; once CteEvaluation is a defined type, a recogniser left on the plain function type silently stops matching (the CTE then reaches a function or a key read unevaluated)")
+	regs := map[string]types.Type{}
+	var regPos string
+	for _, f := range c.P.ModFuncs {
+		allInstrs(f, func(_ *ssa.BasicBlock, in ssa.Instruction) {
+			mu, ok := in.(*ssa.MapUpdate)
+			if !ok {
+				return
+			}
+			if mi, isMI := mu.Value.(*ssa.MakeInterface); isMI && isThunkType(mi.X.Type()) {
+				regs[mi.X.Type().String()] = mi.X.Type()
+				regPos = c.P.Pos(mu.Pos())
+			}
+		})
+	}
+	if len(regs) == 0 {
+		c.Unknown("thunk.type-agree", "registration", "-", "anchor lost: no lazy CTE is stored into a document")
+		return
+	}
+	var regT types.Type
+	for _, t := range regs {
+		regT = t
+	}
+	c.Check(len(regs) == 1, "thunk.type-agree", "registration", regPos, "one dynamic type for lazy CTE entries: "+regT.String(), fmt.Sprintf("lazy CTE entries are stored under %d different dynamic types", len(regs)))
+	n := 0
+	for _, f := range c.P.ModFuncs {
+		k := 0
+		allInstrs(f, func(_ *ssa.BasicBlock, in ssa.Instruction) {
+			ta, ok := in.(*ssa.TypeAssert)
+			if !ok || !isThunkType(ta.AssertedType) {
+				return
+			}
+			n++
+			k++
+			same := false
+			for _, t := range regs {
+				if types.Identical(t, ta.AssertedType) {
+					same = true
+				}
+			}
+			c.Check(same, "thunk.type-agree", fmt.Sprintf("%s/recogniser#%d", c.P.funcKey(f), k), c.P.Pos(ta.Pos()), "asserts the registered type", "a lazy CTE is looked for as "+ta.AssertedType.String()+" but is stored as "+regT.String()+": this recogniser never matches")
+		})
+	}
+	if n < 5 {
+		c.Unknown("thunk.type-agree", "recognisers", "-", fmt.Sprintf("only %d lazy-CTE recognisers found", n))
+	}
+}
 
 // ruleC09ParsedImmutable: parsed selectors (shared through the process-wide cache) are never written after construction.
 func ruleC09ParsedImmutable(c *Ctx) {
